@@ -11,7 +11,7 @@ LEVEL_TEXT = ("Lean 4 theorems over (a) the leaf closed forms regenerated from g
               "is tied to the code by exact differential execution of the Lean model on the same gate trees; the same statements are ALSO proved directly about the executable gate-tree model that the driver runs (Tree.mat / inverse / herm over exact Gaussian rationals, structural induction over Tree.WF, files C..Tree.lean).")
 ASSUMPTIONS = ["scipy.linalg.expm is modelled by NormedSpace.exp, sqrtm(1-H^2) by any Hermitian square root commuting with H, "
                "np.linalg.qr by any real orthogonal completion with first column +-x/|x| (each assumption is checked numerically on every sampled call)",
-               "IEEE rounding/overflow is not modelled: theorems are over R/C, the numeric tie uses tolerance 1e-9 and |theta| <= 1e12",
+               "IEEE rounding/overflow is not modelled: theorems are over R/C, the numeric tie uses tolerance 1e-9 and |theta| <= 1e12; scipy.linalg.expm loses unitarity at the level eps*|t|*||H|| (6e-5 at 5e11), evolution times are sampled with |t| <= 1e4",
                "leaf closed forms are tied by the translator (IR validated against the live class at 20-60 parameter points per class)"]
 RULE = ("every leaf class at boundary angles, ALL control patterns up to 3 (quick) / 4 (thorough) controls around non-symmetric targets, "
         "multiplexers of width 1-3, and seeded random gate trees of depth <= 3/4; a case is non-trivial if the gate was constructed and its "
